@@ -16,6 +16,11 @@ thread_local! {
     static LAST_PANIC: std::cell::RefCell<Option<String>> = const { std::cell::RefCell::new(None) };
 }
 
+/// Root of the verification tree (evidence, replays, known findings). /verif unless VERIF_ROOT is set.
+pub fn root() -> String {
+    std::env::var("VERIF_ROOT").unwrap_or_else(|_| "/verif".to_string())
+}
+
 pub fn hash_seed() -> i64 {
     std::env::var("VERIF_HASH_SEED")
         .ok()
